@@ -196,8 +196,8 @@ Section Driver.
     ltb gt (projgr (s_x s) (s_g s) (lb c) (ub c)) && (s_nit s <? maxiter c) &&
     (SF.nfev _ _ _ _ (s_sf s) <? maxfun c) && negb (s_succ s).
 
-  Definition set_stop (s : lst) (f : float) (g : vec) (x : vec) (G : list vec) (t : sfst) (m : msg) (w : Z) : lst :=
-    mklst x f g (s_X s) G (s_mats s) (s_nit s) m true w t.
+  Definition set_stop (s : lst) (f : float) (g : vec) (x : vec) (X G : list vec) (t : sfst) (m : msg) (w : Z) : lst :=
+    mklst x f g X G (s_mats s) (s_nit s) m true w t.
 
   (* a failed line search: abort when the memory holds a single point, otherwise reset it and go on *)
   Definition fail_step (s : lst) (t1 : sfst) : bool * lst :=
@@ -217,10 +217,11 @@ Section Driver.
        | Some u => let r := u x f0 f0_old g (s_X s) (s_G s) in
                    '(a1, a2, a3, a4) <- call r (EvUpd x f0 f0_old g (s_X s) (s_G s) r) ;; ret (a1, a2, a3, a4, true)
        end ;;
-    if is_f0_target_reached (div f0 (SF.scale _ _ _ _ t2)) ft then ret (false, set_stop s f0 g x G t2 MTarget 0)
-    else if is_f0_min_change_reached f0 f0_old (ftol c) then ret (false, set_stop s f0 g x G t2 MFtol 0)
+    (* the rewritten history is filtered before the stop tests *)
+    let '(X1, G1) := if filt then filter_mem (s_X s) G else (s_X s, G) in
+    if is_f0_target_reached (div f0 (SF.scale _ _ _ _ t2)) ft then ret (false, set_stop s f0 g x X1 G1 t2 MTarget 0)
+    else if is_f0_min_change_reached f0 f0_old (ftol c) then ret (false, set_stop s f0 g x X1 G1 t2 MFtol 0)
     else
-      let '(X1, G1) := if filt then filter_mem (s_X s) G else (s_X s, G) in
       let '(X2, G2, m2) := update_mem x g X1 G1 (s_mats s) in
       let s1 := mklst x f0 g X2 G2 m2 (s_nit s) (s_msg s) (s_succ s) (s_warn s) t2 in
       match u_cb U with
@@ -303,6 +304,11 @@ Section Driver.
                      | Some u => let r := u x f0 f0 g X G in
                                  '(a1, _, a3, a4) <- call r (EvUpd x f0 f0 g X G r) ;; ret (a1, a3, a4)
                      end ;;
+      (* restart: the restored history, possibly rewritten by the update function, is filtered *)
+      let '(X, G) := match u_upd U, X with
+                     | Some _, _ :: _ => filter_mem X G
+                     | _, _ => (X, G)
+                     end in
       let '(X1, G1, m1) := match X with
                            | [] => ([x], [g], None)
                            | _ => update_mem x g X G None
